@@ -185,8 +185,10 @@ def main(argv=None):
     ev = {"property_id": prop, "tier": tier, "seed": seed, "level": level, "coverage": cov,
           "assumptions": getattr(mod, "ASSUMPTIONS", []), "wall_s": round(wall, 2),
           "violations": n_viol}
-    os.makedirs(os.path.join(env.VERIF, "evidence"), exist_ok=True)
-    with open(os.path.join(env.VERIF, "evidence", f"{prop}.json"), "w", encoding="utf-8") as fh:
+    evdir = os.environ.get("VF_EVIDENCE_DIR") if os.environ.get("VF_REPO") else None
+    evdir = evdir or os.path.join(env.VERIF, "evidence")   # self-test runs against a scratch copy never
+    os.makedirs(evdir, exist_ok=True)                        # overwrite the evidence of the real tree
+    with open(os.path.join(evdir, f"{prop}.json"), "w", encoding="utf-8") as fh:
         json.dump(ev, fh, indent=1, default=str, sort_keys=True)
         fh.write("\n")
 
